@@ -7,6 +7,7 @@ from .vals import (VInt, VBool, VReal, VNone, NONE, VObj, VTup, VOpt, VRef, VFun
                    T_INT, T_BOOL, T_STR, T_ANY)
 from .state import Unsupported, ContractError, fresh_val, fresh_hlist, fresh_hdict, empty_hlist, empty_hdict
 from .engine import exc_isinstance
+from .merge import merge_states
 
 MUTATORS = {'append', 'extend', 'pop', 'remove', 'reverse', 'sort', 'add', 'insert', 'clear', 'update',
             'setdefault', 'discard', 'addTest', 'popitem'}
@@ -31,11 +32,20 @@ class StmtMixin:
         if not stmts:
             return [(st, 'normal', None)]
         out = []
+        base_len = len(st.pc)
+        normals = []
         for s1, kind, val in self.exec_stmt(stmts[0], st):
             if kind == 'normal':
-                out += self.exec_block(stmts[1:], s1)
+                normals.append(s1)
             else:
                 out.append((s1, kind, val))
+        if len(normals) > 1 and self.merge_enabled and self.cur[0].extra.get('merge', False):
+            m = merge_states(base_len, normals)
+            if m is not None:
+                self.stats['merged'] = self.stats.get('merged', 0) + len(normals) - 1
+                normals = [m]
+        for s1 in normals:
+            out += self.exec_block(stmts[1:], s1)
         return out
 
     def exec_stmt(self, node, st):
@@ -324,6 +334,8 @@ class StmtMixin:
             return
         if h.et is None:
             h = HList(o.et, empty_hlist(o.et).arr, z3.IntVal(0))
+        if h.et != o.et:
+            raise Unsupported("extending a list of %r with elements of %r" % (h.et, o.et))
         c = self.const_int(VInt(o.n))
         if c is not None and c <= 8 and z3.is_store(o.arr) or c == 0:
             arr, n = h.arr, h.n
@@ -679,6 +691,17 @@ class StmtMixin:
                 for kw in call.keywords:
                     if kw.arg == m:
                         expr = kw.value
+        if expr is None and callee is None:
+            e = ast.parse(m, mode='eval').body          # an expression of the caller's own scope
+            if isinstance(e, ast.Attribute):
+                base = self.resolve_static(e.value, st)
+                if isinstance(base, VRef) and isinstance(st.heap[base.rid], HRec):
+                    fields.add((base.rid, e.attr))
+                    v = st.heap[base.rid].fields.get(e.attr)
+                    if isinstance(v, VRef):
+                        rids.add(v.rid)
+                return
+            expr = e
         if expr is not None:
             v = self.resolve_static(expr, st)
             if isinstance(v, VRef):
@@ -764,6 +787,8 @@ class StmtMixin:
                 raise Unsupported("loop at line %s changes ghost %s outside its havoc set" % (node.lineno, g))
 
     def havoc_val(self, v, name, st):
+        if v.__class__.__name__ == 'VUnb':
+            return v.__class__(v.bound, self.havoc_val(v.val, name, st))
         if isinstance(v, VRef):
             h = st.heap[v.rid]
             if isinstance(h, HRec):
